@@ -145,6 +145,10 @@ def run_seq(acc: Acc, real, ref, group: str, aggr_name, seq, impl_cache) -> None
         for type_ in TYPES:
             d = getattr(fl, which)(type_)
             got = outcome_of(lambda: float(d.defuzzify(agg)))
+            got_again = outcome_of(lambda: float(d.defuzzify(agg))) if type_ == "Automatic" else got
+            if got_again[0] != got[0] or (got[0] == "value" and not close(got_again[1], got[1], 0.0, 0.0)) or (got[0] == "raise" and got_again != got):
+                acc.violate("not-repeatable", {"defuzzifier": which, "type": type_}, {**case0, "defuzzifier": which, "type": type_}, got, got_again,
+                            f"{which}({type_}) on {case0['sequence']}: the second defuzzification gives {got_again}, the first {got}")
             want = outcome_of(lambda: RW.defuzzify(which, type_, seq, aggr_name, ref))
             results[type_] = got
             case = {**case0, "defuzzifier": which, "type": type_}
